@@ -326,6 +326,19 @@ fn run(name: &str, j: &J) -> Result<bool, String> {
             // image — `a % b` is not defined for b = 0, `CAST(s AS INTEGER)` is not defined for a text that is not a number
             {
                 let strict_null_ok = |img: &DataType, y: &Value| -> bool { if *y == Value::none() { matches!(img, DataType::Optional(_) | DataType::Any) } else { true } };
+                // functions of a text over a text INTERVAL (e.g. a column narrowed by `name >= 'A' AND name <= 'a'`): the image has to
+                // contain the value at a point inside the interval, not only at its bounds
+                let text_iv = |lo: &str, hi: &str| DataType::structured([("a", DataType::from(qrlew::data_type::intervals::Intervals::<String>::empty().union_interval(lo.to_string(), hi.to_string())))]);
+                for (e, dt, x) in [(Expr::lower(Expr::col("a")), text_iv("A", "a"), "B"), (Expr::upper(Expr::col("a")), text_iv("A", "a"), "Z"), (Expr::upper(Expr::col("a")), text_iv("B", "b"), "a"), (Expr::char_length(Expr::col("a")), text_iv("a", "b"), "abc")] {
+                    let arg = Value::structured([("a", Value::text(x))]);
+                    if let (Ok(Ok(img)), Ok(Ok(y))) = (std::panic::catch_unwind(std::panic::AssertUnwindSafe(|| e.super_image(&dt))), std::panic::catch_unwind(std::panic::AssertUnwindSafe(|| e.value(&arg)))) {
+                        if !reprs(&y).iter().any(|r| img.contains(r)) {
+                            println!("  {} over {} has the range {} but its value at {} is {}", e, dt, img, arg, y);
+                            println!("QX-WITNESS {}", serde_json::json!({"partial": e.to_string()}));
+                            return Ok(false);
+                        }
+                    }
+                }
                 let cases: Vec<(Expr, DataType, Value)> = vec![
                     (Expr::modulo(Expr::col("a"), Expr::col("b")), DataType::structured([("a", DataType::integer_values([7, 8])), ("b", DataType::integer_values([0, 3]))]), Value::structured([("a", Value::integer(7)), ("b", Value::integer(0))])),
                     (Expr::cast_as_integer(Expr::col("a")), DataType::structured([("a", DataType::text_values(["1".to_string(), "12".to_string(), "n/a".to_string()]))]), Value::structured([("a", Value::text("n/a"))])),
@@ -1149,11 +1162,25 @@ fn run(name: &str, j: &J) -> Result<bool, String> {
                 None
             };
             std::panic::set_hook(Box::new(|_| {}));
+            if name == "c13_case" && j.get("sd_missing_public").is_some() { return run("c13_search", &serde_json::json!({})); }
             if name == "c13_case" { let r = std::panic::catch_unwind(std::panic::AssertUnwindSafe(|| one(j["query"].as_str().unwrap(), j["sd"].as_bool().unwrap_or(false)))).unwrap_or(None); if let Some(m) = &r { println!("  {}", m); } return Ok(r.is_none()); }
             for with_sd in [false, true] { for q in queries {
                 let r = std::panic::catch_unwind(std::panic::AssertUnwindSafe(|| one(q, with_sd))).unwrap_or(None);
                 if let Some(m) = r { println!("  {}", m); println!("QX-WITNESS {}", serde_json::json!({"query": q, "sd": with_sd})); return Ok(false); }
             } }
+            // synthetic data that covers the protected tables only: a query on the public table has a Public derivation and must compile
+            {
+                let sd = Some(SyntheticData::new(Hierarchy::from([(vec!["t"], Identifier::from("synthetic_t")), (vec!["u"], Identifier::from("synthetic_u"))])));
+                for q in ["SELECT a FROM p", "SELECT sum(t.a) AS s FROM t JOIN p ON t.k = p.k"] {
+                    let relation = Relation::try_from(parse(q).map_err(|e| e.to_string())?.with(&relations)).map_err(|e| e.to_string())?;
+                    let r = std::panic::catch_unwind(std::panic::AssertUnwindSafe(|| relation.rewrite_with_differential_privacy(&relations, sd.clone(), PrivacyUnit::from(vec![("t", vec![], "id"), ("u", vec![], "id")]), DpParameters::from_epsilon_delta(1., 1e-3)).is_ok()));
+                    if !matches!(r, Ok(true)) {
+                        println!("  `{}` with synthetic data for t and u only: {}", q, if r.is_err() { "the compiler panics" } else { "no rewriting although the public derivation exists" });
+                        println!("QX-WITNESS {}", serde_json::json!({"query": q, "sd_missing_public": true}));
+                        return Ok(false);
+                    }
+                }
+            }
             Ok(true)
         }
         // C01: the per-unit clipping norm must be built from partial sums taken per (unit, group) for EVERY grouping column of the
